@@ -20,11 +20,38 @@ import (
 type simDisk struct {
 	data   []byte
 	writes int
+	// A disk write takes time: latency is the number of scheduling points inside one Write (drawn per
+	// run), so that producer operations interleave with a write in progress — also with the last write
+	// of a flush, after the queue was found empty. inWrite is set while a Write is in progress.
+	latency int
+	inWrite bool
+	// stallNext (faulted runs) stalls the writer goroutine for that many scheduler steps inside its
+	// next disk write: the disk hangs in the middle of a write.
+	stallNext int
+	// split: part of the bytes reach the medium before the write hangs, the rest after it.
+	split bool
 }
 
 func (d *simDisk) Write(p []byte) (int, error) {
-	d.data = append(d.data, p...)
+	d.inWrite = true
+	k := 0
+	if d.split {
+		k = len(p) / 2
+		d.data = append(d.data, p[:k]...)
+	}
+	for i := 0; i < d.latency; i++ {
+		simrt.Gosched()
+	}
+	if d.stallNext > 0 {
+		st := d.stallNext
+		d.stallNext = 0
+		simrt.Stall("writeLoop", st)
+		simrt.Hit("disk-hangs-inside-a-write")
+		simrt.Gosched()
+	}
+	d.data = append(d.data, p[k:]...)
 	d.writes++
+	d.inWrite = false
 	return len(p), nil
 }
 
@@ -38,7 +65,7 @@ func init() {
 			return site
 		},
 		Real: []string{"asyncbufio.Writer (NewWriter, Write, WriteString, Flush, Close, writeLoop, flush)", "bufio.Writer"},
-		Stub: []string{"disk (in-memory io.Writer)"},
+		Stub: []string{"disk (in-memory io.Writer whose Write takes 0-3 scheduling points and, as a fault, hangs in the middle)"},
 	})
 }
 
@@ -47,9 +74,9 @@ func c07aBody(env *simrt.Env) {
 	depth := depths[simrt.Draw(len(depths))]
 	intervals := []time.Duration{time.Millisecond, 10 * time.Millisecond, 100 * time.Millisecond, 3 * time.Second}
 	interval := intervals[simrt.Draw(len(intervals))]
-	disk := &simDisk{}
+	disk := &simDisk{latency: simrt.Draw(4), split: simrt.Draw(2) == 1}
 	w := NewWriter(disk, depth, interval)
-	env.Op("NewWriter depth=%d flush=%v", depth, interval)
+	env.Op("NewWriter depth=%d flush=%v disk-write-latency=%d scheduling points", depth, interval, disk.latency)
 
 	var accepted []byte
 	seq := 0
@@ -75,6 +102,9 @@ func c07aBody(env *simrt.Env) {
 			switch {
 			case err == nil && got == n:
 				accepted = append(accepted, chunk...)
+				if disk.inWrite {
+					simrt.Hit("write-accepted-during-disk-write")
+				}
 			case err != nil && got == 0:
 				rejected++
 				simrt.Hit("write-rejected")
@@ -85,6 +115,9 @@ func c07aBody(env *simrt.Env) {
 			before := len(accepted)
 			if len(w.datachannel) == cap(w.datachannel) {
 				simrt.Hit("flush-with-full-queue")
+			}
+			if disk.inWrite {
+				simrt.Hit("flush-called-during-disk-write")
 			}
 			simrt.Within(30*time.Second, "C07.flush-returns", "asyncbufio:flush-hangs", func() { w.Flush() })
 			env.Op("Flush")
@@ -99,8 +132,13 @@ func c07aBody(env *simrt.Env) {
 		default: // stall the writer goroutine
 			if env.Faulted() {
 				steps := 5 + simrt.DrawFault(60)
-				simrt.Stall("writeLoop", steps)
-				env.Op("stall writeLoop for %d steps", steps)
+				if simrt.DrawFault(2) == 0 {
+					simrt.Stall("writeLoop", steps)
+					env.Op("stall writeLoop for %d steps", steps)
+				} else {
+					disk.stallNext = steps
+					env.Op("the disk will hang for %d steps inside its next write", steps)
+				}
 			}
 		}
 		checkPrefix(fmt.Sprintf("after op %d", i))
